@@ -160,6 +160,69 @@ def _check_symbolic(n):
     return True, "ok"
 
 
+def _check_multiqubit(n):
+    """numeric gates on 3 and 4 qubits (asymmetric under every exchange of their qubits) on EVERY ordered tuple of an n-qubit register, acting on a product state
+    with distinct single-qubit marginals: state vector, exact distribution, exact <Z_q> and samples agree with the element-wise definition; plus the
+    many-shots regimes of the sampler (more shots than basis states, 10^5 and more shots)"""
+    import math
+    import numpy as np
+    from orquestra.quantum.circuits import Circuit, RY, SWAP, CNOT, RX, X
+    from orquestra.quantum.operators import PauliSum, PauliTerm
+    from orquestra.quantum.runners.symbolic_simulator import SymbolicSimulator
+
+    def embed(M, qs):
+        k = len(qs)
+        bit = lambda i, q: (i >> (n - 1 - q)) & 1
+        E = np.zeros((2 ** n, 2 ** n), dtype=complex)
+        for r in range(2 ** n):
+            for c in range(2 ** n):
+                if all(bit(r, q) == bit(c, q) for q in range(n) if q not in qs):
+                    sr = sum(bit(r, q) << (k - 1 - t) for t, q in enumerate(qs))
+                    sc = sum(bit(c, q) << (k - 1 - t) for t, q in enumerate(qs))
+                    E[r, c] = M[sr, sc]
+        return E
+    p1 = [0.11 + 0.17 * q for q in range(n)]
+    prep = [RY(2 * math.asin(math.sqrt(p)))(q) for q, p in enumerate(p1)]
+    gates = [SWAP.controlled(2), CNOT.controlled(1), RX(0.7).controlled(2), CNOT.controlled(2)]
+    for g in gates:
+        k = g.num_qubits
+        if k > n:
+            continue
+        tuples = list(itertools.permutations(range(n), k))
+        for qs in (tuples if len(tuples) <= 120 else tuples[::3]):
+            c = Circuit(prep + [g(*qs)], n_qubits=n)
+            want = np.zeros(2 ** n, dtype=complex)
+            want[0] = 1
+            for op in c.operations:
+                want = embed(np.array(op.gate.matrix.tolist(), dtype=complex), op.qubit_indices) @ want
+            sim = SymbolicSimulator(seed=3)
+            a = np.array(sim.get_wavefunction(c).amplitudes, dtype=complex).ravel()
+            if not np.allclose(a, want, atol=1e-9):
+                return False, f"n={n}: {g} on qubits {qs}: state vector differs from the element-wise definition (max deviation {abs(a - want).max():.3g})"
+            dist = sim.get_measurement_outcome_distribution(c, n_samples=None).distribution_dict
+            for key, v in dist.items():
+                idx = sum(b << (n - 1 - q) for q, b in enumerate(key))
+                if abs(v - abs(want[idx]) ** 2) > 1e-9:
+                    return False, f"n={n}: {g} on qubits {qs}: exact distribution key {key} has probability {v}, definition {abs(want[idx]) ** 2}"
+            for q in range(n):
+                ez = sim.get_exact_expectation_values(c, PauliSum([PauliTerm({q: "Z"}, 1.0)]))
+                wz = sum(abs(want[i]) ** 2 * (1 - 2 * ((i >> (n - 1 - q)) & 1)) for i in range(2 ** n))
+                if abs(complex(np.sum(ez)) - wz) > 1e-9:
+                    return False, f"n={n}: {g} on qubits {qs}: exact <Z_{q}> = {np.sum(ez)}, definition {wz}"
+    # sampler regimes on an asymmetric basis-like state: X on qubit 0, a controlled flip, H-free so that few outcomes have non-zero probability
+    c = Circuit([X(0), CNOT(0, n - 1)] + ([X(1)] if n > 2 else []), n_qubits=n)
+    want_bits = tuple([1] + ([1] if n > 2 else []) + [0] * (n - 3 if n > 2 else n - 2) + [1])[:n] if n > 1 else (1,)
+    for n_samples in (1, 2 ** n, 2 ** n + 1, 99999, 100000, 100001, 262145):
+        sim = SymbolicSimulator(seed=5)
+        m = sim.run_and_measure(c, n_samples)
+        if len(m.bitstrings) != n_samples or set(m.bitstrings) != {want_bits}:
+            return False, f"n={n}: {n_samples} samples of a basis state {want_bits}: outcomes {sorted(set(m.bitstrings))[:3]}"
+        d = sim.get_measurement_outcome_distribution(c, n_samples).distribution_dict
+        if set(k for k, v in d.items() if v > 0) != {want_bits}:
+            return False, f"n={n}: empirical distribution from {n_samples} samples has support {sorted(k for k, v in d.items() if v > 0)[:3]}"
+    return True, "ok"
+
+
 def _check_wide(n):
     """the views that need no simulator, on wide registers (directly constructed state vectors): the amplitude at index i (qubit 0 = most significant bit)
     shows up under the tuple / count string / distribution key / Z-eigenvalues of the bits of i, in both sampling regimes"""
@@ -230,6 +293,9 @@ def build(tier, seed):
     obs.append(vprop.enum_ob("C04.views.enum", F_OPS, lambda: range(1, 5 if tier == "quick" else 6), _check_width,
                              "bounded-exhaustive per width: amplitudes, outcome-prob keys, exact distribution, exact <Z_S> for every subset S, sampled tuples (both sampling regimes, "
                              "function and runner), count strings and measured <Z_S> all use 'position q = qubit q' on basis states and on a separable state with distinct marginals", timeout=1500))
+    obs.append(vprop.enum_ob("C04.multiqubit_views.enum", F_OPS[:5] + ["orquestra.quantum.circuits._unitary_tools:_lift_matrix_numpy"], lambda: ([3, 4] if tier == "quick" else [3, 4, 5]), _check_multiqubit,
+                             "bounded-exhaustive per width: 3- and 4-qubit numeric gates on every ordered tuple acting on a product state with distinct marginals: state, exact distribution, "
+                             "exact <Z_q> agree with the element-wise definition; sampler with 1 .. 262145 shots on a basis state", timeout=1500))
     obs.append(vprop.enum_ob("C04.wide_views.enum", F_OPS[:3] + F_OPS[5:], lambda: ([6, 9] if tier == "quick" else [6, 9, 12]), _check_wide,
                              "bounded: registers of 6 / 9 (12) qubits, directly constructed basis states and two-component superpositions at the first, last, middle and random indices: outcome "
                              "probabilities, exact distribution, exact <Z_S>, sampled tuples in both regimes, count strings and measured <Z_S> all read bit q of the amplitude index "
